@@ -313,6 +313,8 @@ func poolRule(c *Ctx, rule string, pkgPrefixes []string) {
 	if obj := p.LookupFunc("compress.(*Decompressor).Decode"); obj != nil {
 		fn := p.SSAFunc(obj)
 		var putDefer, recDefer *ssa.Defer
+		// inside one deferred function: the instructions of that function that lead to the recover and to the Put
+		recTop, putTop := map[*ssa.Defer]ssa.Instruction{}, map[*ssa.Defer]ssa.Instruction{}
 		allCalls(fn, false, func(_ *ssa.Function, call ssa.CallInstruction) {
 			d, ok := call.(*ssa.Defer)
 			if !ok {
@@ -332,25 +334,31 @@ func poolRule(c *Ctx, rule string, pkgPrefixes []string) {
 				return
 			}
 			seen := map[*ssa.Function]bool{}
-			var walk func(f *ssa.Function)
-			walk = func(f *ssa.Function) {
+			var walk func(f *ssa.Function, top ssa.Instruction)
+			walk = func(f *ssa.Function, top ssa.Instruction) {
 				if f == nil || seen[f] || f.Blocks == nil {
 					return
 				}
 				seen[f] = true
-				allCalls(f, true, func(_ *ssa.Function, c2 ssa.CallInstruction) {
+				allCalls(f, false, func(_ *ssa.Function, c2 ssa.CallInstruction) {
+					at := top
+					if at == nil {
+						at, _ = c2.(ssa.Instruction)
+					}
 					if b, ok := c2.Common().Value.(*ssa.Builtin); ok && b.Name() == "recover" {
 						recDefer = d
+						recTop[d] = at
 					}
 					if isPut(c2) {
 						putDefer = d
+						putTop[d] = at
 					}
 					if sc := c2.Common().StaticCallee(); sc != nil && inModule(sc) && fnPkgPath(sc) == fnPkgPath(fn) {
-						walk(sc)
+						walk(sc, at)
 					}
 				})
 			}
-			walk(target)
+			walk(target, nil)
 		})
 		if putDefer != nil && recDefer != nil {
 			before := false
@@ -367,7 +375,11 @@ func poolRule(c *Ctx, rule string, pkgPrefixes []string) {
 			} else {
 				before = putDefer.Block().Dominates(recDefer.Block())
 			}
-			c.Check(rule, "Decompressor.Decode: the release that pools the reader runs after the panic recovery", recDefer.Pos(), before && putDefer != recDefer,
+			if putDefer == recDefer {
+				// one deferred function does both: it recovers before it decides to pool
+				before = recTop[recDefer] != nil && putTop[putDefer] != nil && recTop[recDefer] != putTop[putDefer] && dominates(recTop[recDefer], putTop[putDefer])
+			}
+			c.Check(rule, "Decompressor.Decode: the release that pools the reader runs after the panic recovery", recDefer.Pos(), before,
 				"the deferred release ("+p.Pos(putDefer.Pos())+") is registered after the deferred recovery, so it runs first and sees a nil error while a panic is still in flight: a reader that failed by panicking is returned to the pool and handed to the next Decode")
 		}
 	}
@@ -643,8 +655,22 @@ func isErrorResultOf(fn *ssa.Function, v ssa.Value) bool {
 		for _, cs := range callersOf(errorResultProg, par.Parent()) {
 			args := cs.Common().Args
 			if idx >= 0 && idx < len(args) {
-				if a, ok := args[idx].(*ssa.Alloc); ok {
-					cell = a
+				a := args[idx]
+				// the call sits in a (deferred) closure: the address is a free
+				// variable bound to the enclosing function's cell
+				if fv, ok := a.(*ssa.FreeVar); ok && fv.Parent().Parent() != nil {
+					for _, mc := range allMakeClosures(fv.Parent().Parent()) {
+						if mc.Fn == ssa.Value(fv.Parent()) {
+							for i, b := range mc.Bindings {
+								if i < len(fv.Parent().FreeVars) && fv.Parent().FreeVars[i] == fv {
+									a = b
+								}
+							}
+						}
+					}
+				}
+				if al, ok := a.(*ssa.Alloc); ok {
+					cell = al
 				}
 			}
 		}
